@@ -23,6 +23,13 @@ ArgsCovariant(a, b) == /\ a.seen = b.seen
                        /\ (a.seen => /\ a.ncyc = b.ncyc /\ IsNaN(a.nsec) /\ IsNaN(b.nsec)
                                      /\ ~IsNaN(a.fs) /\ ~IsNaN(b.fs) /\ SameProportion(a.fs, b.fs, a.flo, b.flo) /\ SameProportion(a.fs, b.fs, a.fhi, b.fhi))
 
+\* what bycycle hands to the environment (narrowband filter, amplitude estimate, sample-wise detector) in the two runs must stand in the relation
+\* of the two signals: only then does a differing environment output say something about the environment rather than about bycycle
+\* (a sign-sensitive or scale-sensitive preprocessing step on bycycle's side is bycycle's doing).  Inputs are sequences of grid integers q.
+NegSeq(x) == [i \in 1 .. Len(x) |-> -x[i]]
+InputsMirrored == c.A.filt_input = c.B.filt_input /\ c.A.amp_input = c.B.amp_input /\ c.A.dt_input = NegSeq(c.B.dt_input)
+InputsSame == c.A.filt_input = c.B.filt_input /\ c.A.amp_input = c.B.amp_input /\ c.A.dt_input = c.B.dt_input
+
 Clauses ==
   IF c.A.raised # "" \/ c.B.raised # ""
   THEN Fail(c.A.raised # "" /\ c.B.raised # "", c.rel \o ".only_one_run_raised")
@@ -31,15 +38,18 @@ Clauses ==
            \o Fail(RowsAgree(LAMBDA a, b : SameSamples(a, b)), "C09.mirror.sample_indices")
            \o Fail(RowsAgree(MirrorRow), "C09.mirror.shape_features")
            \o Fail(RowsAgree(MirrorBurst), "C09.mirror.burst_features_or_labels")
+           \o Fail(InputsMirrored, "C09.mirror.inputs_to_filter_amplitude_or_detector_not_mirrored")
            \o Fail(c.A.pos = c.B.pos /\ c.A.mask = c.B.mask, "C09.env.filter_or_detector_not_odd_symmetric")
          [] c.rel = "C10.amp" ->
               Fail(Len(c.A.rows) = Len(c.B.rows), "C10.amp.row_count")
            \o Fail(RowsAgree(ScaledRow), "C10.amp.table")
+           \o Fail(InputsSame, "C10.amp.inputs_to_filter_amplitude_or_detector_not_scaled_alike")
            \o Fail(c.A.pos = c.B.pos /\ c.A.mask = c.B.mask, "C10.env.filter_or_detector_not_scale_invariant")
          [] OTHER ->
               Fail(ArgsCovariant(c.A.flen, c.B.flen) /\ ArgsCovariant(c.A.filt, c.B.filt), "C10.fs.filter_arguments_not_in_the_same_units")
            \o Fail(Len(c.A.rows) = Len(c.B.rows), "C10.fs.row_count")
            \o Fail(RowsAgree(SameRow), "C10.fs.table")
+           \o Fail(InputsSame, "C10.fs.inputs_to_filter_amplitude_or_detector_differ")
            \o Fail(c.A.pos = c.B.pos /\ c.A.mask = c.B.mask /\ c.A.L = c.B.L, "C10.env.filter_or_detector_depends_on_units")
 
 Judge == /\ stage = "pair"
